@@ -272,9 +272,9 @@ func c06RunPooled(c *Case) (out string, fails []Fail) {
 			continue
 		}
 		p := rec.pipes[where[i]]
-		if !c06EqTuple(p.labels, t) {
+		if want := c06RefLabels(t); !c06EqTuple(p.labels, want) {
 			fails = append(fails, Fail{"c06:pooled:labels-changed",
-				fmt.Sprintf("after all records were processed, the pipeline that served keys %s has metric labels %s (id %q tag %q)", c06Q(t), c06Q(p.labels), p.id, p.tag)})
+				fmt.Sprintf("after all records were processed, the pipeline that served keys %s has metric labels %s, its own values give %s (id %q tag %q)", c06Q(t), c06Q(p.labels), c06Q(want), p.id, p.tag)})
 		}
 		if p.id != strings.Join(t, ",") {
 			fails = append(fails, Fail{"c06:pooled:id-changed",
@@ -463,6 +463,7 @@ func c06RunPooledE2E(pc *c06PoolCase) (out string, fails []Fail) {
 	}
 	tparts, refOK := c06RefParse(pc.tmpl, pc.names)
 	parts := make([]string, len(pc.tuples))
+	served := map[*c06PoolConsumer]int{}
 	for i, t := range pc.tuples {
 		if len(got[i]) != 1 {
 			parts[i] = fmt.Sprintf("n%d", len(got[i]))
@@ -475,9 +476,16 @@ func c06RunPooledE2E(pc *c06PoolCase) (out string, fails []Fail) {
 		if !c06EqTuple(d.keys, t) {
 			fails = append(fails, Fail{"c06:e2e:record-changed", fmt.Sprintf("record %d: key fields %s delivered as %s", i, c06Q(t), c06Q(d.keys))})
 		}
-		if !c06EqTuple(pipeKeys, t) {
+		if want := c06RefLabels(t); !c06EqTuple(pipeKeys, want) {
 			fails = append(fails, Fail{"c06:pooled:labels-changed",
-				fmt.Sprintf("record with keys %s is delivered by a pipeline whose metric labels now read %s (tag %q)", c06Q(t), c06Q(pipeKeys), d.tag)})
+				fmt.Sprintf("record with keys %s is delivered by a pipeline whose metric labels now read %s, its own values give %s (tag %q)", c06Q(t), c06Q(pipeKeys), c06Q(want), d.tag)})
+		}
+		// one pipeline (consumer) never delivers records of two key sets
+		if j, seen := served[d.consumer]; !seen {
+			served[d.consumer] = i
+		} else if !c06EqTuple(pc.tuples[j], t) {
+			fails = append(fails, Fail{"c06:pipeline-shared:" + c06PairClass(pc.tuples[j], t),
+				fmt.Sprintf("records with keys %s and %s are delivered by the same pipeline (tag %q)", c06Q(pc.tuples[j]), c06Q(t), d.tag)})
 		}
 		if refOK {
 			if want := c06RefExpand(tparts, t); want != d.tag {
@@ -487,11 +495,11 @@ func c06RunPooledE2E(pc *c06PoolCase) (out string, fails []Fail) {
 		}
 	}
 	// metric key sets: the label sets created by the pipelines' LogProcessCounterSets, read now, are exactly the
-	// (orchestration keys, metric key) combinations of the records
+	// renderings (c06RefLabels) of the (orchestration keys, metric key) combinations of the records
 	if mf := c06PoolMetricField(pc.names); mf != "facility" {
 		want := map[string]bool{}
 		for i, t := range pc.tuples {
-			want[c06TupleKey(append(append([]string{}, t...), c06PoolMetricValue(i)))] = true
+			want[c06TupleKey(c06RefLabels(append(append([]string{}, t...), c06PoolMetricValue(i))))] = true
 		}
 		seen := map[string]bool{}
 		for _, m := range env.metricSets {
